@@ -93,7 +93,22 @@ func (e EvmEngine) Init(r *Run) error {
 	}
 	st := bst(r)
 	st.Evm = &EvmSt{c10: newC10(), c11: newC11(), c08: newC08()}
+	if r.Prop == "C08" {
+		c := st.Chains[0]
+		c.Tokens = append(c.Tokens, &TokenInfo{Symbol: "TST", Base: "tst", Contract: tokenContract(c.Name, "TST"), Kind: "erc20"})
+	}
 	if !r.Replay {
+		if r.Prop == "C08" {
+			// the native ERC-20 pair is set up before the deposits are claimed
+			var keep []Step
+			for _, s0 := range st.Setup {
+				keep = append(keep, s0)
+				if s0.Kind == "gov" && s0.A.Str("what") == "register_coin" {
+					keep = append(keep, e.c08Setup(r)...)
+				}
+			}
+			st.Setup = keep
+		}
 		// extra setup: the oracles claim the initial deposits, then the users execute them
 		c := st.Chains[0]
 		var txs []Tx
@@ -145,6 +160,11 @@ func (e EvmEngine) resolver(r *Run, addrs []common.Address) Resolver {
 			return common.Address{}.Hex()
 		case name == "USDT":
 			if pair, ok := w.App.Erc20Keeper.GetTokenPair(w.Ctx(), "usdt"); ok {
+				return pair.Erc20Address
+			}
+			return common.Address{}.Hex()
+		case name == "TST":
+			if pair, ok := w.App.Erc20Keeper.GetTokenPair(w.Ctx(), "tst"); ok {
 				return pair.Erc20Address
 			}
 			return common.Address{}.Hex()
